@@ -33,6 +33,7 @@ func checkC12(c *Ctx, r *Report) {
 	noReadAhead(c, r, "C12.R1.no-read-ahead")
 	udpSessionWrite(c, r, "C12.R2.udp-session-write")
 	matchingIdEndsWait(c, r, "C12.R3.matching-id-ends-wait")
+	round12(c, r, "C12")
 }
 
 func isConnRead(call *ssa.Call) bool {
